@@ -8,7 +8,7 @@ Inductive obs := OOk | OErr | OCrash.      (* exit 0 | non-zero exit with a mess
 
 (* commands whose Ok/Err split the model determines exactly; for the others only crash / no crash is compared *)
 Definition precise (c:cmd) : bool :=
-  match c with CMSeq _ _ | CMInt _ | CDmDirect _ | CDmProject _ _ => true | _ => false end.
+  match c with CMSeq _ _ | CMInt _ | CDmDirect _ | CDmProject _ _ | CSd _ _ => true | _ => false end.
 
 Definition agree (p:bool) (o:outcome) (b:obs) : bool :=
   match o, b with
@@ -21,9 +21,9 @@ Definition agree (p:bool) (o:outcome) (b:obs) : bool :=
 Definition c20_case := (module * bool * list (cmd * obs))%type.
 Definition c20_ok (g:guards) (c:c20_case) : bool :=
   let '(m, rend, rs) := c in
-  forallb (fun r => agree (precise (fst r)) (run g m rend (fuel_bound m) (fst r)) (snd r)) rs.
+  forallb (fun r => agree (precise (fst r)) (run g m rend (fuel_bound m + cmd_extra (fst r)) (fst r)) (snd r)) rs.
 (* which command lines of a case disagree (for diagnosis) *)
 Definition c20_bad (g:guards) (c:c20_case) : list (cmd * obs * outcome) :=
   let '(m, rend, rs) := c in
-  flat_map (fun r => let o := run g m rend (fuel_bound m) (fst r) in
+  flat_map (fun r => let o := run g m rend (fuel_bound m + cmd_extra (fst r)) (fst r) in
                      if agree (precise (fst r)) o (snd r) then [] else [(fst r, snd r, o)]) rs.
